@@ -421,8 +421,14 @@ func (r *Runner) Exec(st Step) (o Obs) {
 		}
 		pops := 0
 		switch o.Retry {
-		case "success", "failed_put", "unknown_put", "unnecessary":
+		case "success", "unnecessary":
 			pops = 1
+		case "failed_put":
+			// the node is dropped only after a failed compare; a definite failure of another kind keeps it
+			pops = 1
+			if len(st.Envs) > 0 && st.Envs[0].Kind == "err" {
+				pops = 0
+			}
 		}
 		if pops > 0 && len(r.fifo) > 0 {
 			r.fifo = r.fifo[1:]
